@@ -203,6 +203,8 @@ class Source:
         i = cand[0]
         k = i
         while toks[k].text != ';':
+            if toks[k].kind == 'punct' and toks[k].text in '([{':
+                k = match_close(toks, k)
             k += 1
         return {'start': toks[i].start, 'end': toks[k].end}
 
@@ -218,10 +220,13 @@ class Source:
         k = i
         while True:
             t = toks[k]
-            if t.kind == 'punct' and t.text == '{':
+            if t.kind == 'punct' and t.text in '([':
                 k = match_close(toks, k)
-                break
-            if t.kind == 'punct' and t.text == ';':
+            elif t.kind == 'punct' and t.text == '{':
+                k = match_close(toks, k)
+                if kind != 'const' and kind != 'static' and kind != 'type':
+                    break
+            elif t.kind == 'punct' and t.text == ';':
                 break
             k += 1
         return {'start': toks[st].start, 'end': toks[k].end}
@@ -736,6 +741,8 @@ def build_unit(unit_path, canary=None, mutate=None, added=()):
                             ins.append(t.start)
                     for a in reversed(ins):
                         ot.insert(a, 'pub ', ot.orig[a])
+            if p['item'] == 'const' and not p.get('map'):
+                p = dict(p, map=[['&str', "&'static str"]]) if '&str' in ot.s else p
             for frm, to in p.get('map', []):
                 if ot.s.count(frm) < 1:
                     raise Undecided('item %s: map source %r not found' % (p['name'], frm))
